@@ -1,36 +1,95 @@
-#include "shim.h"
+/* Differential self-test of the MIR->C encoding (DESIGN 2.2.5a): the generated C, compiled with
+ * gcc, is run concretely over the same case space as `harness/replay e2-sweep N` (the real crate
+ * with real unwinding); both must print identical lines.  Validates translator, libcore models,
+ * unwind protocol and the direct construction of Drain states together. */
+#include <stdio.h>
+#include <stdlib.h>
 #include <string.h>
-#include "gen_all_st.c"
+#define __CPROVER_assume(c) do { if (!(c)) { printf("ABORT\n"); exit(3); } } while (0)
+#define __CPROVER_assert(c, m) do { if (!(c)) { printf("CASSERT %s\n", m); } } while (0)
+#define SELFTEST 1
+#include GEN
 typedef st_CircularBuffer cb_t;
 #define SLOT(b, i) ((b)->f2.a[((b)->f1 + (i)) % (NN ? NN : 1)])
 
-static void run(const char *op, size_t start, size_t size, size_t arg, unsigned kind, unsigned at) {
-  cb_t b; memset(&b, 0xEE, sizeof b);
-  b.f0 = size; b.f1 = start;
-  memset(LEDGER, 0, sizeof LEDGER); memset(EV, 0, sizeof EV); NEXT_FRESH = 32; PANICS = 0; UNWINDING = 0;
-  DOUBLE_DROP = GARBAGE_DROP = GARBAGE_READ = 0;
-  for (size_t i = 0; i < size; i++) { SLOT(&b, i).id = i; LEDGER[i] = LIVE; }
-  tok_t src[2 * NN + 1]; for (size_t i = 0; i < 2 * NN + 1; i++) { src[i].id = 16 + i; LEDGER[16 + i] = LIVE; }
-  unsigned char before[IDS]; memcpy(before, LEDGER, IDS);
-  FAULT_KIND = kind; FAULT_AT = at;
-  if (!strcmp(op, "truncate_back")) mir_CircularBuffer_truncate_back(&b, arg);
-  else if (!strcmp(op, "truncate_front")) mir_CircularBuffer_truncate_front(&b, arg);
-  else if (!strcmp(op, "extend_from_slice")) { fat_tok o = { src, arg < 2 * NN + 1 ? arg : 2 * NN + 1 }; mir_CircularBuffer_extend_from_slice(&b, o); }
-  else if (!strcmp(op, "fill_with")) { user_F_t f = {0}; mir_CircularBuffer_fill_with(&b, f); }
-  int panicked = UNWINDING; UNWINDING = 0; FAULT_KIND = F_NONE;
-  printf("%s N=%d start=%zu size=%zu arg=%zu fault=%u@%u -> panicked=%d len=%zu ids=[", op, NN, start, size, arg, kind, at, panicked, b.f0);
-  for (size_t i = 0; i < b.f0 && i < NN; i++) printf("%s%u", i ? "," : "", SLOT(&b, i).id);
-  printf("] drops=[");
-  int first = 1;
-  for (unsigned i = 0; i < IDS; i++) { unsigned n = DROPCOUNT[i]; if (n) { printf("%s%u:%u", first ? "" : ",", i, n); first = 0; } }
-  printf("]\n");
+static void reset(void) {
+  memset(LEDGER, 0, sizeof LEDGER); memset(EV, 0, sizeof EV); memset(DROPCOUNT, 0, sizeof DROPCOUNT);
+  NEXT_FRESH = FRESH0; PANICS = 0; UNWINDING = 0; DOUBLE_DROP = GARBAGE_DROP = GARBAGE_READ = 0; FAULT_KIND = F_NONE; FAULT_AT = 0;
 }
-int main() {
-  const char *ops[] = { "truncate_back", "truncate_front", "extend_from_slice", "fill_with" };
-  unsigned faults[][2] = { {0,0},{1,0},{1,1},{1,2},{2,0},{2,1},{2,2},{3,0},{3,1},{3,2} };
-  for (int o = 0; o < 4; o++) for (size_t start = 0; start < 3; start++) for (size_t size = 0; size <= 3; size++) for (size_t arg = 0; arg <= 7; arg++) {
-    if (o == 3 && arg > 0) continue;
-    for (int f = 0; f < 10; f++) { memset(DROPCOUNT, 0, sizeof DROPCOUNT); run(ops[o], start, size, arg, faults[f][0], faults[f][1]); }
+static void mk(cb_t *b, size_t start, size_t size, unsigned char base) {
+  memset(b, 0xEE, sizeof *b); b->f0 = size; b->f1 = start;
+  for (size_t i = 0; i < size; i++) { SLOT(b, i).id = base + i; LEDGER[base + i] = LIVE; }
+}
+static void print_drops(const char *name) {
+  printf(" %s=[", name); int first = 1;
+  for (unsigned i = 0; i < IDS; i++) if (DROPCOUNT[i]) { printf("%s%u:%u", first ? "" : ",", i, DROPCOUNT[i]); first = 0; }
+  printf("]");
+}
+static void run(const char *op, size_t start, size_t size, size_t a, size_t bb, size_t start2, size_t size2, unsigned kind, unsigned at) {
+  cb_t b, o; reset(); mk(&b, start, size, 0);
+  tok_t src[2 * NN + 2]; for (size_t i = 0; i < 2 * NN + 2; i++) { src[i].id = 16 + i; LEDGER[16 + i] = LIVE; }
+  int have_buf = 1;
+  FAULT_KIND = kind; FAULT_AT = at;
+  if (!strcmp(op, "truncate_back")) mir_CircularBuffer_truncate_back(&b, a);
+  else if (!strcmp(op, "truncate_front")) mir_CircularBuffer_truncate_front(&b, a);
+  else if (!strcmp(op, "clear")) mir_CircularBuffer_clear(&b);
+  else if (!strcmp(op, "fill")) { tok_t v; v.id = 32; LEDGER[32] = LIVE; mir_CircularBuffer_fill(&b, v); }
+  else if (!strcmp(op, "fill_spare")) { tok_t v; v.id = 32; LEDGER[32] = LIVE; mir_CircularBuffer_fill_spare(&b, v); }
+  else if (!strcmp(op, "fill_with")) { user_F_t f = {0}; mir_CircularBuffer_fill_with(&b, f); }
+  else if (!strcmp(op, "fill_spare_with")) { user_F_t f = {0}; mir_CircularBuffer_fill_spare_with(&b, f); }
+  else if (!strcmp(op, "extend_from_slice")) { fat_tok s = { src, a < 2 * NN + 2 ? a : 2 * NN + 2 }; mir_CircularBuffer_extend_from_slice(&b, s); }
+  else if (!strcmp(op, "extend")) { user_I_t it; memset(&it, 0, sizeof it); it.mode = 0; it.remaining = a; mir_Extend_for_CircularBuffer_extend(&b, it); }
+  else if (!strcmp(op, "drop")) { mir_Drop_for_CircularBuffer_drop(&b); have_buf = 0; }
+  else if (!strcmp(op, "drain_drop")) {
+    st_Drain d; d.f0 = &b; d.f1 = b.f0; b.f0 = 0; d.f2.f0 = a; d.f2.f1 = bb; d.f3.f0 = a + start2; d.f3.f1 = bb - size2;
+    mir_Drop_for_Drain_drop(&d);
   }
+  else if (!strcmp(op, "clone_from")) {
+    mk(&o, start2, size2, 48);
+    FAULT_KIND = kind; FAULT_AT = at;
+    mir_Clone_for_CircularBuffer_clone_from(&b, &o);
+  }
+  else { printf("unknown op %s\n", op); exit(2); }
+  int panicked = UNWINDING; UNWINDING = 0; FAULT_KIND = F_NONE;
+  printf("%s N=%d M=0 start=%zu size=%zu a=%zu b=%zu start2=%zu size2=%zu fault=%u@%u -> panicked=%d", op, NN, start, size, a, bb, start2, size2, kind, at, panicked);
+  if (have_buf) {
+    printf(" len=%zu ids=[", b.f0);
+    for (size_t i = 0; i < b.f0 && i < NN; i++) printf("%s%u", i ? "," : "", SLOT(&b, i).id);
+    printf("]");
+  } else printf(" len=0 ids=[]");
+  print_drops("drops");
+  if (have_buf) mir_Drop_for_CircularBuffer_drop(&b);
+  print_drops("final");
+  printf("\n");
+}
+
+int main(void) {
+  static const unsigned faults[13][2] = { {0,0},{1,0},{1,1},{1,2},{1,3},{2,0},{2,1},{2,2},{3,0},{3,1},{3,2},{4,0},{4,2} };
+  const char *ops[] = { "truncate_back", "truncate_front", "clear", "fill", "fill_spare", "fill_with", "fill_spare_with", "extend_from_slice", "extend", "drop" };
+  size_t nstarts = NN == 0 ? 1 : NN;
+  for (int o = 0; o < 10; o++) for (size_t start = 0; start < nstarts; start++) for (size_t size = 0; size <= NN; size++) {
+    const char *op = ops[o];
+    size_t amax = 0;
+    if (!strcmp(op, "truncate_back") || !strcmp(op, "truncate_front")) amax = NN + 1;
+    if (!strcmp(op, "extend_from_slice") || !strcmp(op, "extend")) amax = 2 * NN + 1;
+    for (size_t a = 0; a <= amax; a++) for (int f = 0; f < 13; f++) {
+      unsigned kind = faults[f][0], at = faults[f][1];
+      int relevant = kind <= 1
+        || (kind == 2 && (!strcmp(op, "fill") || !strcmp(op, "fill_spare") || !strcmp(op, "extend_from_slice")))
+        || (kind == 3 && (!strcmp(op, "fill_with") || !strcmp(op, "fill_spare_with")))
+        || (kind == 4 && !strcmp(op, "extend"));
+      if (!relevant) continue;
+      run(op, start, size, a, 0, 0, 0, kind, at);
+    }
+  }
+  static const unsigned dfaults[4][2] = { {0,0},{1,0},{1,1},{1,2} };
+  for (size_t start = 0; start < nstarts; start++) for (size_t size = 0; size <= NN; size++)
+    for (size_t a = 0; a <= size; a++) for (size_t b = a; b <= size; b++)
+      for (size_t f = 0; f <= b - a; f++) for (size_t k = 0; k <= b - a - f; k++)
+        for (int x = 0; x < 4; x++) run("drain_drop", start, size, a, b, f, k, dfaults[x][0], dfaults[x][1]);
+  static const unsigned cfaults[6][2] = { {0,0},{1,0},{1,1},{2,0},{2,1},{2,2} };
+  for (size_t start = 0; start < nstarts; start++) for (size_t size = 0; size <= NN; size++)
+    for (size_t start2 = 0; start2 < nstarts; start2++) for (size_t size2 = 0; size2 <= NN; size2++)
+      for (int x = 0; x < 6; x++) run("clone_from", start, size, 0, 0, start2, size2, cfaults[x][0], cfaults[x][1]);
   return 0;
 }
